@@ -34,6 +34,7 @@ type decoration struct {
 	name         string
 	f            func(v string) string
 	thoroughOnly bool
+	raw          bool // f returns the whole content of the key source (no line end is added)
 }
 
 func affix(pre, post string) func(string) string {
@@ -54,45 +55,45 @@ func flipSome(v string) string {
 }
 
 var decorations = []decoration{
-	{"leading space", affix(" ", ""), false},
-	{"trailing space", affix("", " "), false},
-	{"leading tab", affix("\t", ""), false},
-	{"trailing tab", affix("", "\t"), false},
-	{"trailing CR", affix("", "\r"), false},
-	{"leading CR", affix("\r", ""), false},
-	{"leading NBSP U+00A0", affix("\u00a0", ""), false},
-	{"trailing NBSP U+00A0", affix("", "\u00a0"), false},
-	{"trailing U+3000", affix("", "\u3000"), false},
-	{"leading U+3000", affix("\u3000", ""), true},
-	{"trailing U+0085", affix("", "\u0085"), false},
-	{"trailing U+2003", affix("", "\u2003"), false},
-	{"leading U+2003", affix("\u2003", ""), true},
-	{"trailing zero-width space U+200B", affix("", "\u200b"), false},
-	{"leading zero-width space U+200B", affix("\u200b", ""), false},
-	{"trailing NUL", affix("", "\x00"), false},
-	{"BOM in front", affix("\ufeff", ""), false},
-	{"trailing vertical tab", affix("", "\v"), true},
-	{"trailing form feed", affix("", "\f"), true},
-	{"spaces on both sides", affix("  ", "  "), false},
+	{"leading space", affix(" ", ""), false, false},
+	{"trailing space", affix("", " "), false, false},
+	{"leading tab", affix("\t", ""), false, false},
+	{"trailing tab", affix("", "\t"), false, false},
+	{"trailing CR", affix("", "\r"), false, false},
+	{"leading CR", affix("\r", ""), false, false},
+	{"leading NBSP U+00A0", affix("\u00a0", ""), false, false},
+	{"trailing NBSP U+00A0", affix("", "\u00a0"), false, false},
+	{"trailing U+3000", affix("", "\u3000"), false, false},
+	{"leading U+3000", affix("\u3000", ""), true, false},
+	{"trailing U+0085", affix("", "\u0085"), false, false},
+	{"trailing U+2003", affix("", "\u2003"), false, false},
+	{"leading U+2003", affix("\u2003", ""), true, false},
+	{"trailing zero-width space U+200B", affix("", "\u200b"), false, false},
+	{"leading zero-width space U+200B", affix("\u200b", ""), false, false},
+	{"trailing NUL", affix("", "\x00"), false, false},
+	{"BOM in front", affix("\ufeff", ""), false, false},
+	{"trailing vertical tab", affix("", "\v"), true, false},
+	{"trailing form feed", affix("", "\f"), true, false},
+	{"spaces on both sides", affix("  ", "  "), false, false},
 	{"whole string in the other case", func(v string) string {
 		if v == strings.ToUpper(v) {
 			return strings.ToLower(v)
 		}
 		return strings.ToUpper(v)
-	}, false},
-	{"mixed case", flipSome, false},
+	}, false, false},
+	{"mixed case", flipSome, false, false},
 }
 
 // wrappings: spellings that a "helpful" un-quoting or un-escaping layer would
 // turn into the canonical string. None of them is the key string.
 var wrappings = []decoration{
-	{"wrapped in double quotes", affix(`"`, `"`), false},
-	{"first character as \\xNN inside double quotes", func(v string) string { return fmt.Sprintf(`"\x%02x%s"`, v[0], v[1:]) }, false},
-	{"wrapped in back quotes", affix("`", "`"), false},
-	{"wrapped in single quotes", affix("'", "'"), false},
+	{"wrapped in double quotes", affix(`"`, `"`), false, false},
+	{"first character as \\xNN inside double quotes", func(v string) string { return fmt.Sprintf(`"\x%02x%s"`, v[0], v[1:]) }, false, false},
+	{"wrapped in back quotes", affix("`", "`"), false, false},
+	{"wrapped in single quotes", affix("'", "'"), false, false},
 	{"a middle character as \\u00NN inside double quotes", func(v string) string {
 		return fmt.Sprintf(`"%s\u%04x%s"`, v[:10], v[10], v[11:])
-	}, false},
+	}, false, false},
 	{"every character as an octal escape inside double quotes", func(v string) string {
 		var sb strings.Builder
 		sb.WriteByte('"')
@@ -101,23 +102,52 @@ var wrappings = []decoration{
 		}
 		sb.WriteByte('"')
 		return sb.String()
-	}, false},
-	{"first character as \\xNN, no quotes", func(v string) string { return fmt.Sprintf(`\x%02x%s`, v[0], v[1:]) }, false},
-	{"first character as an octal escape, no quotes", func(v string) string { return fmt.Sprintf(`\%03o%s`, v[0], v[1:]) }, false},
-	{"first character percent-encoded", func(v string) string { return fmt.Sprintf("%%%02X%s", v[0], v[1:]) }, false},
-	{"first character as an HTML entity", func(v string) string { return fmt.Sprintf("&#%d;%s", v[0], v[1:]) }, false},
-	{"trailing backslash", affix("", `\`), false},
-	{"shell $'...' text", affix("$'", "'"), false},
-	{"YAML list item", affix("- ", ""), false},
-	{"key: value", affix("recipient: ", ""), false},
-	{"key=value", affix("key=", ""), false},
-	{"angle brackets", affix("<", ">"), false},
-	{"trailing comma", affix("", ","), false},
-	{"trailing semicolon", affix("", ";"), false},
-	{"parentheses", affix("(", ")"), false},
-	{"square brackets", affix("[", "]"), false},
-	{"JSON object", affix(`{"recipient":"`, `"}`), false},
-	{"quoted with a trailing comma", affix(`"`, `",`), false},
+	}, false, false},
+	{"first character as \\xNN, no quotes", func(v string) string { return fmt.Sprintf(`\x%02x%s`, v[0], v[1:]) }, false, false},
+	{"first character as an octal escape, no quotes", func(v string) string { return fmt.Sprintf(`\%03o%s`, v[0], v[1:]) }, false, false},
+	{"first character percent-encoded", func(v string) string { return fmt.Sprintf("%%%02X%s", v[0], v[1:]) }, false, false},
+	{"first character as an HTML entity", func(v string) string { return fmt.Sprintf("&#%d;%s", v[0], v[1:]) }, false, false},
+	{"trailing backslash", affix("", `\`), false, false},
+	{"shell $'...' text", affix("$'", "'"), false, false},
+	{"YAML list item", affix("- ", ""), false, false},
+	{"key: value", affix("recipient: ", ""), false, false},
+	{"key=value", affix("key=", ""), false, false},
+	{"angle brackets", affix("<", ">"), false, false},
+	{"trailing comma", affix("", ","), false, false},
+	{"trailing semicolon", affix("", ";"), false, false},
+	{"parentheses", affix("(", ")"), false, false},
+	{"square brackets", affix("[", "]"), false, false},
+	{"JSON object", affix(`{"recipient":"`, `"}`), false, false},
+	{"quoted with a trailing comma", affix(`"`, `",`), false, false},
+}
+
+// ttySpecial: bytes a terminal in its default mode acts on itself (signals, end
+// of input, erase, kill, flow control, literal-next, reprint, CR->LF).
+const ttySpecial = "\x03\x04\x08\x11\x12\x13\x15\x16\x17\x1a\x1c\x7f\r"
+
+// controlBytes: a valid key string directly followed (or preceded) by one
+// control / non-printable byte, before each kind of line end, and as the only
+// content of a following line; plus Ctrl-Z sequences.
+func controlBytes() []decoration {
+	var out []decoration
+	for _, c := range []byte{0x1a, 0x04, 0x00, 0x03, 0x08, 0x0b, 0x0c, 0x1b, 0x1c, 0x7f, 0x85, 0xa0, 0xff} {
+		cs := string([]byte{c})
+		n := fmt.Sprintf("0x%02X", c)
+		out = append(out,
+			decoration{n + " behind the key, LF", affix("", cs+"\n"), false, true},
+			decoration{n + " behind the key, CRLF", affix("", cs+"\r\n"), false, true},
+			decoration{n + " behind the key, end of input without newline", affix("", cs), false, true},
+			decoration{n + " in front of the key", affix(cs, "\n"), false, true},
+			decoration{n + " alone on the following line", affix("", "\n"+cs+"\n"), false, true},
+		)
+	}
+	out = append(out,
+		decoration{"0x1A behind the key, then more valid lines", func(v string) string { return v + "\x1a\n" + v + "\n" + v + "\n" }, false, true},
+		decoration{"CR 0x1A behind the key", affix("", "\r\x1a\n"), false, true},
+		decoration{"0x1A behind the key, then a mistyped line", func(v string) string { return v + "\x1a\n" + v[:len(v)-1] + "\n" }, false, true},
+		decoration{"0x1A alone on the following line, then a mistyped line", func(v string) string { return v + "\n\x1a\n" + v[:len(v)-1] + "\n" }, false, true},
+	)
+	return out
 }
 
 // lineModel: what a line-oriented route hands to the key parser. tty adds the
@@ -154,6 +184,9 @@ var routes = []route{
 	{"age -d -i - (stdin a pipe)", "identity", "pipe", false},
 	{"age -d -i - (stdin a terminal)", "identity", "tty", true},
 	{"age -d -i - (stdin the controlling terminal)", "identity", "tty", false},
+	{"age -e -i file", "eidentity", "file", false},
+	{"age -e -i - (stdin a pipe)", "eidentity", "pipe", false},
+	{"age -e -i - (stdin a terminal)", "eidentity", "tty", true},
 	{"age-keygen -y file", "keygen", "file", false},
 	{"age-keygen -y (stdin a pipe)", "keygen", "pipe", false},
 	{"age-keygen -y (stdin a terminal)", "keygen", "tty", true},
@@ -164,6 +197,7 @@ type routeEnv struct {
 	mu                sync.Mutex
 	seq               int
 	controlsOK        map[string]bool
+	outcomes          map[string]map[string]string // kind/decoration -> via -> outcome
 }
 
 var routesState *routeEnv
@@ -189,7 +223,7 @@ func jobsRoutes() []func(*batch) {
 			k, rt, ki := k, rt, ki
 			// controls for both keys; decorations alternate between the keys in quick
 			if R.Thorough() || ki == 0 {
-				jobs = append(jobs, func(b *batch) { e.run(b, k, rt, decoration{"none (control)", affix("", ""), false}, 0) })
+				jobs = append(jobs, func(b *batch) { e.run(b, k, rt, decoration{"none (control)", affix("", ""), false, false}, 0) })
 			}
 			for di, d := range decorations {
 				if !R.Thorough() && ((di+len(rt.name))%2 != ki || d.thoroughOnly) {
@@ -206,6 +240,17 @@ func jobsRoutes() []func(*batch) {
 				}
 				w := w
 				jobs = append(jobs, func(b *batch) { e.run(b, k, rt, w, 0) })
+			}
+			for ci, cb := range controlBytes() {
+				// quick: Ctrl-Z behind the key (LF) and alone on the next line on every route,
+				// the same control byte on the file and the stdin route of a kind (so that the
+				// two can be compared): selection by (ci, kind), rotated by the seed
+				kindIdx := len(rt.kind)
+				if !R.Thorough() && (ki != ci%2 || (ci != 0 && ci != 4 && (ci+kindIdx+int(R.Seed))%6 != 0)) {
+					continue
+				}
+				cb := cb
+				jobs = append(jobs, func(b *batch) { e.run(b, k, rt, cb, 0) })
 			}
 		}
 	}
@@ -231,6 +276,16 @@ func (e *routeEnv) run(b *batch, k []byte, rt route, dec decoration, attempt int
 		v = sR
 	}
 	s := dec.f(v)
+	content := s + "\n"
+	if dec.raw {
+		content = s
+		if rt.via == "argv" && strings.ContainsAny(s, "\n") {
+			return // several lines are not one argument
+		}
+		if rt.via == "tty" && strings.ContainsAny(s, ttySpecial) {
+			return // the terminal itself acts on these bytes
+		}
+	}
 	if rt.via == "argv" && strings.ContainsRune(s, 0) {
 		return // a NUL cannot be part of an argument
 	}
@@ -239,7 +294,7 @@ func (e *routeEnv) run(b *batch, k []byte, rt route, dec decoration, attempt int
 	if control {
 		claim = "must-work"
 	} else if rt.via != "argv" {
-		lines := lineModel(s+"\n", rt.via == "tty")
+		lines := lineModel(content, rt.via == "tty")
 		same := len(lines) > 0
 		for _, l := range lines {
 			same = same && l == v
@@ -256,9 +311,9 @@ func (e *routeEnv) run(b *batch, k []byte, rt route, dec decoration, attempt int
 	feed := func() { // hand the key line over by rt.via
 		switch rt.via {
 		case "file":
-			os.WriteFile(filepath.Join(d, "keyfile"), []byte(s+"\n"), 0o600)
+			os.WriteFile(filepath.Join(d, "keyfile"), []byte(content), 0o600)
 		case "pipe":
-			c.Stdin = []byte(s + "\n")
+			c.Stdin = []byte(content)
 		case "tty":
 			c.StdinTTY = true
 			if rt.noCTY {
@@ -266,7 +321,11 @@ func (e *routeEnv) run(b *batch, k []byte, rt route, dec decoration, attempt int
 			} else {
 				c.TTY = true
 			}
-			c.Script = []cli.TTYStep{{Send: s + "\n\x04"}}
+			send := content
+			if !strings.HasSuffix(send, "\n") {
+				send += "\x04" // first ^D hands over the unfinished line, the second is the end of input
+			}
+			c.Script = []cli.TTYStep{{Send: send + "\x04"}}
 		}
 	}
 	src := "-"
@@ -290,6 +349,9 @@ func (e *routeEnv) run(b *batch, k []byte, rt route, dec decoration, attempt int
 		}
 		os.WriteFile(filepath.Join(d, "ct.age"), refage.BuildFile(fk, []refage.Stanza{st}, detBytes("c09-routes-nonce", 16), plain), 0o600)
 		argv = []string{e.age, "-d", "-i", src, "-o", "out", "ct.age"}
+	case "eidentity":
+		os.WriteFile(filepath.Join(d, "input"), plain, 0o600)
+		argv = []string{e.age, "-e", "-i", src, "-o", "out", "input"}
 	case "keygen":
 		argv = []string{e.keygen, "-y"}
 		if rt.via == "file" {
@@ -312,7 +374,7 @@ func (e *routeEnv) run(b *batch, k []byte, rt route, dec decoration, attempt int
 	// did the tool use the string as the key?
 	worked := false
 	switch rt.kind {
-	case "recipient":
+	case "recipient", "eidentity":
 		if res.Exit == 0 {
 			o, err := refage.Decrypt(out, refage.X25519Key{Secret: k})
 			worked = err == nil && bytes.Equal(o.Plaintext, plain)
@@ -321,6 +383,18 @@ func (e *routeEnv) run(b *batch, k []byte, rt route, dec decoration, attempt int
 		worked = res.Exit == 0 && bytes.Equal(out, plain)
 	case "keygen":
 		worked = res.Exit == 0 && strings.TrimSpace(string(res.Stdout)) == sR
+	}
+	if rt.via == "file" || rt.via == "pipe" {
+		e.mu.Lock()
+		if e.outcomes == nil {
+			e.outcomes = map[string]map[string]string{}
+		}
+		key := rt.kind + " / " + dec.name
+		if e.outcomes[key] == nil {
+			e.outcomes[key] = map[string]string{}
+		}
+		e.outcomes[key][rt.via] = fmt.Sprintf("exit0=%v used=%v", res.Exit == 0, worked)
+		e.mu.Unlock()
 	}
 	more := map[string]any{"route": rt.name, "decoration": dec.name, "line": s, "line_hex": fmt.Sprintf("%x", s), "argv": strings.Join(argv[1:], " "),
 		"exit": res.Exit, "stderr": string(truncateB(res.Stderr, 300))}
@@ -368,6 +442,20 @@ func finishRoutes() {
 		return
 	}
 	os.RemoveAll(e.base)
+	cmp := 0
+	for key, m := range e.outcomes {
+		f, okf := m["file"]
+		p, okp := m["pipe"]
+		if !okf || !okp {
+			continue
+		}
+		cmp++
+		if f != p {
+			violate("file-and-stdin-disagree:"+strings.SplitN(key, " / ", 2)[0],
+				fmt.Sprintf("the same bytes (%s) as a named file give %s, on standard input (a pipe) %s", key, f, p), map[string]any{"case": key, "file": f, "pipe": p})
+		}
+	}
+	R.Set("routes_file_vs_stdin_outcomes_compared", cmp)
 	for _, rt := range routes {
 		if !e.controlsOK[rt.name] {
 			R.Inconclusive("routes stage: the plain key string never worked on route %q, so refusals on it prove nothing", rt.name)
